@@ -6,13 +6,10 @@ From K.Proof Require Import C29 C29_rc.
 Import ListNotations.
 Local Open Scope N_scope.
 
-Definition occupying (p : rpc) : bool :=
-  match p with RRunning _ | RReleasing _ => true | _ => false end.
-
 Definition cnt (thr : N -> rpc) (l : list N) : nat := length (filter (fun c => occupying (thr c)) l).
 
-(* threads (among those that ever called Start) that hold a worker *)
-Definition inflight (s : rst) : N := N.of_nat (cnt (r_thr s) (r_tids s)).
+Lemma inflight_cnt : forall s, inflight s = N.of_nat (cnt (r_thr s) (r_tids s)).
+Proof. reflexivity. Qed.
 
 Definition b2n (b : bool) : nat := if b then 1%nat else 0%nat.
 
@@ -63,11 +60,16 @@ Proof.
 Qed.
 
 Lemma cinit : cinv rinit.
-Proof. constructor; unfold rinit, inflight; simpl; auto; [ constructor | congruence ]. Qed.
+Proof.
+  constructor; unfold rinit, inflight; simpl.
+  - constructor.
+  - intros c H. congruence.
+  - reflexivity.
+Qed.
 
 Lemma cstep : forall cf s l, cinv s -> cinv (rstep cf s l).
 Proof.
-  intros cf s l [Nd Hin Hc]. unfold inflight in Hc.
+  intros cf s l [Nd Hin Hc]. rewrite inflight_cnt in Hc.
   assert (Hmove : forall c p, r_thr s c <> RIdle ->
             (cnt (upd (r_thr s) c p) (r_tids s) + b2n (occupying (r_thr s c))
              = cnt (r_thr s) (r_tids s) + b2n (occupying p))%nat)
@@ -84,30 +86,30 @@ Proof.
     { intros p pend Hp. constructor; simpl.
       - now apply add_tid_nodup.
       - intros x Hx. apply in_add_tid. ue x c; auto.
-      - unfold inflight. simpl. rewrite cnt_start; auto. }
+      - rewrite inflight_cnt. simpl. rewrite cnt_start; auto. }
     destruct (r_pend s k); [ now apply Hgen | ].
     destruct (errs k) as [[e exp] |]; [ destruct (cexpired (r_now s) exp) | ]; now apply Hgen.
   - destruct (r_thr s c) eqn:T; try (constructor; auto; fail).
     assert (r_thr s c <> RIdle) as Hc0 by congruence.
-    constructor; simpl; eauto. unfold inflight. simpl.
+    constructor; simpl; eauto. rewrite inflight_cnt. simpl.
     pose proof (Hmove c (RArmed k (r_now s + c_busy cf)) Hc0) as H. rewrite T in H. simpl in H. lia.
   - destruct (r_thr s c) eqn:T; try (constructor; auto; fail).
     destruct (r_used s <? c_workers cf); [ | constructor; auto ].
     assert (r_thr s c <> RIdle) as Hc0 by congruence.
-    constructor; simpl; eauto. unfold inflight. simpl.
+    constructor; simpl; eauto. rewrite inflight_cnt. simpl.
     pose proof (Hmove c (RRunning k) Hc0) as H. rewrite T in H. simpl in H. lia.
   - destruct (r_thr s c) eqn:T; try (constructor; auto; fail).
     destruct (d <=? r_now s); [ | constructor; auto ].
     assert (r_thr s c <> RIdle) as Hc0 by congruence.
-    constructor; simpl; eauto. unfold inflight. simpl.
+    constructor; simpl; eauto. rewrite inflight_cnt. simpl.
     pose proof (Hmove c (RRet RBusy) Hc0) as H. rewrite T in H. simpl in H. lia.
   - destruct (r_thr s c) eqn:T; try (constructor; auto; fail).
     assert (r_thr s c <> RIdle) as Hc0 by congruence.
-    constructor; simpl; eauto. unfold inflight. simpl.
+    constructor; simpl; eauto. rewrite inflight_cnt. simpl.
     pose proof (Hmove c (RReleasing k) Hc0) as H. rewrite T in H. simpl in H. lia.
   - destruct (r_thr s c) eqn:T; try (constructor; auto; fail).
     assert (r_thr s c <> RIdle) as Hc0 by congruence.
-    constructor; simpl; eauto. unfold inflight. simpl.
+    constructor; simpl; eauto. rewrite inflight_cnt. simpl.
     pose proof (Hmove c RIdle Hc0) as H. rewrite T in H. simpl in H. lia.
 Qed.
 
